@@ -108,14 +108,37 @@ Proof. exact xv_verdict_decomposes. Qed.
 Check C17_verdict_decomposes : forall p s d, xv_exec_valid p s d = true <-> xv_all_rules p s d.
 Print Assumptions C17_verdict_decomposes.
 
-(* NOT PROVED (the long equivalence; the literal model and the specification's rule are instead compared on
-   every generated case that from_ast.rs builds without loss, inside modelrun, counted in the evidence as
-   literal_merging_vs_spec):
-     C17_xing_equiv : forall s d, xv_r_no_fragment_cycles d = true -> xv_r_argument_unique s d = true ->
-       xv_r_fields_defined s d = true -> xv_r_leaf_selections s d = true -> fragment type conditions composite ->
-       xv_r_input_field_unique s d = true -> within the depth limit ->
+(* C17_xing_equiv, the full statement, is NOT PROVED:
+     forall s d, xv_r_no_fragment_cycles d = true -> xv_r_argument_unique s d = true ->
+       xv_r_input_field_unique s d = true -> xv_r_fields_defined s d = true -> xv_r_leaf_selections s d = true ->
+       fragment type conditions defined and composite -> within FIELD_DEPTH_LIMIT ->
        mx_document_ok s d = Some (xv_r_fields_merge s d).
-   The proved parts of it are C17_xing_groups, C17_first_vs_rest and C17_same_value_equiv. *)
+   The literal model and the specification's rule are instead compared inside modelrun on every generated case
+   that from_ast.rs builds without loss (evidence: literal_merging_vs_spec).
+   Proved, exactly: the pairwise tests of the code are the specification's (this theorem: 2bi/2bii of
+   FieldsInSetCanMerge, steps 3-6 of SameResponseShape), they are equivalences so that first-against-rest decides
+   all pairs (C17_first_vs_rest, _arguments, _shape, C17_same_value_equiv), and the parent grouping is the
+   specification's condition (C17_xing_groups).  Missing: expand_selections (queue, one visit per fragment) against
+   the specification's collection of fields, the recursion through merged sub-selections (two separate passes in
+   the code, one pairwise recursion in the specification), the two memo guards with the cache, the depth limit. *)
+Theorem C17_xing_equiv_partial :
+  (forall a b, args_wf a -> args_wf b ->
+     (mx_same_name_and_arguments a b = true <->
+      streq (mf_name a) (mf_name b) && xv_args_same (mf_args a) (mf_args b) = true)) /\
+  (forall a b, xv_value_unique a = true -> xv_value_unique b = true ->
+     (mx_same_value a b = true <-> xv_value_same a b = true)) /\
+  (forall s a b, field_ty_defined s a -> field_ty_defined s b ->
+     mx_same_output_type_shape s a b = spec_shape_steps s (fd_ty (mf_def a)) (fd_ty (mf_def b))).
+Proof. exact (conj same_name_args_spec (conj same_value_spec same_shape_spec)). Qed.
+Check C17_xing_equiv_partial :
+  (forall a b, args_wf a -> args_wf b ->
+     (mx_same_name_and_arguments a b = true <->
+      streq (mf_name a) (mf_name b) && xv_args_same (mf_args a) (mf_args b) = true)) /\
+  (forall a b, xv_value_unique a = true -> xv_value_unique b = true ->
+     (mx_same_value a b = true <-> xv_value_same a b = true)) /\
+  (forall s a b, field_ty_defined s a -> field_ty_defined s b ->
+     mx_same_output_type_shape s a b = spec_shape_steps s (fd_ty (mf_def a)) (fd_ty (mf_def b))).
+Print Assumptions C17_xing_equiv_partial.
 
 (* ---------- non-vacuity and witnesses ---------- *)
 Definition ex_A : str := [65]. Definition ex_B : str := [66]. Definition ex_C : str := [67].
